@@ -331,6 +331,7 @@ func SQLChild() int {
 	out := json.NewEncoder(os.Stdout)
 	conns := map[int]*localSQL{}
 	files := map[int]*os.File{}
+	bg := map[int]chan string{}
 	next := 0
 	for {
 		line, err := in.ReadBytes('\n')
@@ -460,6 +461,41 @@ func SQLChild() int {
 				resp.Err = err.Error()
 			} else {
 				_ = f.Close()
+			}
+		case "exec_bg":
+			// run a statement on connection H in the background (another
+			// connection of this process goes on meanwhile); wait_bg collects it
+			if c == nil {
+				resp.Err = "no such connection"
+				break
+			}
+			ch := make(chan string, 1)
+			bg[req.H] = ch
+			go func(c *localSQL, q string) {
+				if err := c.exec(q); err != nil {
+					ch <- err.Error()
+				} else {
+					ch <- ""
+				}
+			}(c, req.Q)
+		case "poll_bg":
+			if ch := bg[req.H]; ch == nil {
+				resp.Err = "nothing in the background"
+			} else {
+				select {
+				case r := <-ch:
+					ch <- r
+					resp.Val = "done"
+				default:
+					resp.Val = "running"
+				}
+			}
+		case "wait_bg":
+			if ch := bg[req.H]; ch == nil {
+				resp.Err = "nothing in the background"
+			} else {
+				resp.Err = <-ch
+				delete(bg, req.H)
 			}
 		case "exec", "query1", "hash":
 			if c == nil {
